@@ -68,6 +68,23 @@ CHECKS = {
             'rounding); sin/cos abstracted by s^2+c^2=1, sqrt by t>=0,t^2=x. Out of reach (listed): mat2Quat round trip (bounded '
             'native stand-in), subQuat/quatIntegrate/quat2Vel inverse laws.',
             'client-lemma contracts + symbolic execution of the real bodies, z3/cvc5 NRA'),
+    'C12': ('DESIGN.md section 4 / C12',
+            'Deductive proof over the reals, per constraint block (equality, friction loss, inequality, elliptic contact of dim 3/4/6) '
+            'and per zone, on the symbolically executed real mj_constraintUpdate_impl: efc_force equals minus the gradient of the '
+            'cost (derivative computed symbolically from the executed code\'s own cost expression), the cone Hessian equals the '
+            'derivative of the force and is symmetric, cost and force are continuous across every pair of zones (C1), every piece '
+            'has non-negative second derivatives, state codes are replicated and SATISFIED means zero force and cost.',
+            'Trusted: VC generator, vlib/diff.py, clang, z3/cvc5. Doubles as reals. Preconditions D,R>0, floss>=0, mu,friction>0, '
+            'D*R=1 on friction rows, R[j]*friction^2 = R[0]*mu^2 (mj_makeImpedance). Block independence of the main loop is an assumed '
+            'frame fact. Not proved: PSD of the full elliptic Hessian, qfrc_constraint = J^T force.',
+            'symbolic execution of the real body per block + symbolic differentiation, z3/cvc5 NRA'),
+    'C11': ('DESIGN.md section 4 / C11',
+            'Deductive proof over the reals on the same symbolic paths of mj_constraintUpdate_impl (the force Newton and CG return): '
+            'friction-loss forces within +-frictionloss, unilateral forces non-negative, elliptic contact forces have non-negative '
+            'normal component and lie inside the friction cone; pyramid decode(encode(f)) == f inside the pyramid, decoded normal force '
+            'is the sum of the edges, tangential components within mu times normal (dims 3,4,6).',
+            'Trusted: as C12. Not decided: PGS/noslip projection loops, qfrc_constraint product, island re-assembly.',
+            'symbolic execution of the real bodies, z3/cvc5 NRA'),
 }
 
 NA = {
